@@ -221,19 +221,24 @@ func (c *Check) Sample(class string, v interface{}) {
 }
 
 func (c *Check) loadFindings() {
-	b, err := os.ReadFile(filepath.Join(VerifDir, "known_findings.jsonl"))
+	// /verif/known_findings.txt, one entry per line, never written at run time:
+	//   known: property=<id> key=<key> <what fails>
+	//   fixed: property=<id> <commit> <what failed>          (documentation only; suppresses nothing)
+	b, err := os.ReadFile(filepath.Join(VerifDir, "known_findings.txt"))
 	if err != nil {
 		return
 	}
 	for _, ln := range strings.Split(string(b), "\n") {
 		ln = strings.TrimSpace(ln)
-		if ln == "" || strings.HasPrefix(ln, "#") {
+		if !strings.HasPrefix(ln, "known: property="+c.ID+" key=") {
 			continue
 		}
-		var f Finding
-		if json.Unmarshal([]byte(ln), &f) == nil && f.Property == c.ID {
-			c.findings = append(c.findings, f)
+		rest := strings.TrimPrefix(ln, "known: property="+c.ID+" key=")
+		key, what := rest, ""
+		if i := strings.Index(rest, " "); i > 0 {
+			key, what = rest[:i], strings.TrimSpace(rest[i+1:])
 		}
+		c.findings = append(c.findings, Finding{Property: c.ID, Key: key, Status: "known", What: what})
 	}
 }
 
